@@ -900,9 +900,7 @@ where
             ));
         }
         let len = len as usize;
-        // FIXME: use maybe_uninit?
-        let mut v = vec![0; len];
-        self.reader.read_exact(&mut v).await?;
+        let v = super::rw_ext::read_exact_vec(&mut self.reader, len).await?;
         Ok(v)
     }
 
@@ -923,9 +921,7 @@ where
             ));
         }
         let len = len as usize;
-        // FIXME: use maybe_uninit?
-        let mut v = vec![0; len];
-        self.reader.read_exact(&mut v).await?;
+        let v = super::rw_ext::read_exact_vec(&mut self.reader, len).await?;
         Ok(unsafe { String::from_utf8_unchecked(v) })
     }
 
